@@ -8,6 +8,8 @@ Inductive rcase :=
 | CRel (allow_duplicates : bool) (rows : list row)
        (outs : list (nat * out tree))            (* entry point: 0 list, 1 pandas, 2 polars *)
 | CNest (name_key : str) (d : nd) (o : out tree)
+        (o2 : out tree)                          (* a second build from the very same dictionary object *)
+        (unchanged : bool)                       (* the dictionary equals its deep copy taken before the calls *)
 | CHeap (l : list Z) (o : out hbt).
 
 Fixpoint hbt_eqb (a b : hbt) : bool :=
@@ -46,10 +48,13 @@ Definition check_C13 (c : rcase) : nat :=
       flag (existsb (fun eo => negb (agree tree_equ (rel_to_tree ad (rows_for (fst eo) rows)) (snd eo))) outs)
            F_DISAGREE
       + flag (existsb (fun eo => negb (prop_rel ad (rows_for (fst eo) rows) (snd eo))) outs) F_PROPFAIL
-  | CNest nk d o =>
+  | CNest nk d o o2 unchanged =>
+      (* the model is a function of the dictionary's value: the same value again gives the same result, and the
+         caller's dictionary is not an output *)
       let m := nested_dict_to_tree nk d in
       if unmodelled m then F_SKIP
-      else flag (negb (agree tree_equ m o)) F_DISAGREE + flag (negb (prop_nested nk d o)) F_PROPFAIL
+      else flag (negb (agree tree_equ m o && agree tree_equ m o2 && unchanged)) F_DISAGREE
+           + flag (negb (prop_nested nk d o && prop_nested nk d o2)) F_PROPFAIL
   | CHeap l o =>
       flag (negb (agree hbt_eqb (list_to_binarytree l) o)) F_DISAGREE
       + flag (negb (prop_heap l o)) F_PROPFAIL
